@@ -131,7 +131,11 @@ namespace verif {
     long long num = 0;
     long long den = 1;
     int rad = 1;
+    // id >= 0: DAG node; -1: exact constant; -2: overflowed constant (unusable);
+    // -3: pending literal `lv` (a double that is not a small dyadic rational, e.g.
+    //     `static constexpr real eps = 1.e-14;`): becomes a LIT leaf on first use
     int id = -1;
+    double lv = 0;
 
     constexpr Sym() = default;
     constexpr Sym(const Sym&) = default;
@@ -170,7 +174,8 @@ namespace verif {
         num = v < 0 ? -n : n;
         den = d;
       } else {
-        *this = lit(v);
+        id = -3;
+        lv = v;
       }
     }
     static Sym lit(const double v);
@@ -241,6 +246,7 @@ namespace verif {
 
   inline int node_of(const Sym& s) {
     if (s.id >= 0) return s.id;
+    if (s.id == -3) return Sym::lit(s.lv).id;
     if (s.id == -2) {
       std::fprintf(stderr, "symtrace: use of an overflowed constant\n");
       std::abort();
@@ -265,6 +271,7 @@ namespace verif {
 
   inline double Sym::shadow() const {
     if (id >= 0) return ctx().nodes[id].shadow;
+    if (id == -3) return lv;
     return static_cast<double>(num) / static_cast<double>(den) * radval(rad);
   }
 
@@ -454,7 +461,20 @@ namespace verif {
 #undef VERIF_MIXED
 
   // ---- comparisons: exact on constants, concolic (or abort) on nodes
+  constexpr double const_value(const Sym& x) {
+    if (x.id == -3) return x.lv;
+    double r = static_cast<double>(x.num) / static_cast<double>(x.den);
+    if (x.rad == 2) r *= 1.4142135623730951;
+    if (x.rad == 3) r *= 1.7320508075688772;
+    if (x.rad == 6) r *= 2.4494897427831779;
+    return r;
+  }
   constexpr int const_cmp(const Sym& x, const Sym& y) {
+    // pending literals: compare by (double) value
+    if (x.id == -3 || y.id == -3) {
+      const double a = const_value(x), b = const_value(y);
+      return a < b ? -1 : (a > b ? 1 : 0);
+    }
     // sign of x - y for constants; radicals compared through squares
     if (x.rad == y.rad) {
       const i128 l = static_cast<i128>(x.num) * y.den;
@@ -498,7 +518,8 @@ namespace verif {
 
 #define VERIF_CMP(OPSYM, NAME, CONSTEXPR)                         \
   constexpr bool operator OPSYM(const Sym& x, const Sym& y) {     \
-    if (x.id == -1 && y.id == -1) return const_cmp(x, y) CONSTEXPR; \
+    if ((x.id == -1 || x.id == -3) && (y.id == -1 || y.id == -3)) \
+      return const_cmp(x, y) CONSTEXPR;                           \
     return node_cmp(NAME, x, y);                                  \
   }
   VERIF_CMP(<, "lt", < 0)
